@@ -362,7 +362,15 @@ func (e *concEngine) submit(r *rand.Rand, p, n int) {
 			s.Err = "not delivered"
 		}
 	case "with", "query":
-		err := svc.With(rid, func(rs res.Resource) {
+		// a resource id may carry a query, also an empty one: the group is that of the resource
+		wrid := rid
+		switch core.Hash64(s.ID) % 6 {
+		case 0:
+			wrid += "?"
+		case 1:
+			wrid += "?q=" + s.ID
+		}
+		err := svc.With(wrid, func(rs res.Resource) {
 			e.body(s.ID, s.Group, s.Parallel)
 			if kind == "query" {
 				var qn int32
@@ -383,7 +391,11 @@ func (e *concEngine) submit(r *rand.Rand, p, n int) {
 			s.Err = err.Error()
 		}
 	case "withres":
-		rs, err := svc.Resource(rid)
+		wrid := rid
+		if core.Hash64(s.ID)%5 == 0 {
+			wrid += "?"
+		}
+		rs, err := svc.Resource(wrid)
 		if err != nil {
 			s.Err = err.Error()
 			break
@@ -599,7 +611,11 @@ func (e *concEngine) dirtyStop() bool {
 	svc := e.rig.S
 	release := make(chan struct{})
 	var started sync.WaitGroup
-	for i := 0; i < e.cfg.Workers; i++ {
+	nworkers := e.cfg.Workers
+	if nworkers <= 0 {
+		nworkers = 32 // the documented default
+	}
+	for i := 0; i < nworkers; i++ {
 		started.Add(1)
 		svc.WithGroup(fmt.Sprintf("blocker-%d", i), func(*res.Service) { started.Done(); <-release })
 	}
